@@ -79,9 +79,18 @@ func VerifMutateLine() {
 	}
 	vf.Cover("targets selected")
 	// one target per path group: fork over targets
-	ti := vf.FixInt(vf.Int("target", 0, (len(targets)-1)/64))
+	// (a selector has at most 64 values: three levels address 262144 targets)
+	th := 0
+	if len(targets) > 4096 {
+		th = vf.FixInt(vf.Int("targetHigh", 0, (len(targets)-1)/4096))
+	}
+	hi := (len(targets) - 1) / 64
+	if hi > 63 {
+		hi = 63
+	}
+	ti := vf.FixInt(vf.Int("target", 0, hi))
 	tj := vf.FixInt(vf.Int("targetLow", 0, 63))
-	k := ti*64 + tj
+	k := th*4096 + ti*64 + tj
 	vf.Assume(k < len(targets))
 	tg := targets[k]
 	fdata, err := os.ReadFile(path.Join(tg.Dir, tg.File))
